@@ -35,6 +35,10 @@ def programs(tier):
         k = [x[0] for x in t]
         if "st" in k and "ld" in k:
             out.append(list(t))
+    # store-only triples (a location stored, overlapped, stored again): final memory is compared
+    S3b, _ = ops_menu((0, 1, 2) if tier == "thorough" else (0, 1), (8, 32) if tier == "quick" else (8, 16, 32), ("r1", "r2"))
+    for t in itertools.product(S3b, repeat=3):
+        out.append(list(t))
     if tier == "thorough":
         S4, L4 = ops_menu((0, 1), (8, 32), ("r1",))
         A4 = S4 + L4
@@ -320,7 +324,7 @@ def run(tier, seed):
                 "with noaliasing=True only assignments where p- and q-accesses do not overlap; non-trivial = distinct programs",
         "programs": len(P), "symbolic_results_interpreted": ns, "shadowed": shadowed,
         "samples": [P[0], P[len(P) // 2], P[-1]],
-        "bound": "length <=2 full alphabet, length 3 (>=1 store, >=1 load) reduced alphabet" + (", length 4 reduced" if tier == "thorough" else ""),
+        "bound": "length <=2 full alphabet, length 3 (>=1 store, >=1 load) reduced alphabet, all store-only triples" + (", length 4 reduced" if tier == "thorough" else ""),
     })
     return rep
 
